@@ -491,8 +491,11 @@ def main(prop_name, tier, replay=None):
             "wall_s": round(time.time() - t0, 1),
             "violations": len(violations),
         }
-        os.makedirs(os.path.join(VERIF, "evidence"), exist_ok=True)
-        with open(os.path.join(VERIF, "evidence", prop.ID + ".json"), "w") as f:
+        # sensitivity runs against scratch copies (tools/seedtest.sh, tools/mut.py) set VERIF_EVIDENCE_DIR so that
+        # the committed evidence always describes a run on /repo's working tree
+        evdir = os.environ.get("VERIF_EVIDENCE_DIR") or os.path.join(VERIF, "evidence")
+        os.makedirs(evdir, exist_ok=True)
+        with open(os.path.join(evdir, prop.ID + ".json"), "w") as f:
             json.dump(ev, f, indent=1, default=str)
         print("%s %s seed=%d cases=%d nontrivial_distinct=%d inconclusive=%s excluded_known=%s hard_kills=%d wall=%.0fs" % (
             prop.ID, tier, seed, len(records), len(keys), dict(inc), dict(kn), meta["hard_kills"], time.time() - t0))
